@@ -60,7 +60,7 @@ mod varlink_grammar;
 
 #[derive(Debug, thiserror::Error)]
 pub enum Error {
-    #[error("Varlink parse error\n{line}\n{marker:>column$}", marker = "^")]
+    #[error("Varlink parse error\n{line}\n{}^", " ".repeat(.column.saturating_sub(1)))]
     Parse { line: String, column: usize },
     #[error("Interface definition error: {0}")]
     Idl(String),
